@@ -102,17 +102,7 @@ let eval_stream (stream : string) (case : string) (impl : string) : verdict =
   | "parse" -> let (model, fails) = Parse_o.eval_parse case impl in { model; fails }
   | "prefix" -> let (model, fails) = Parse_o.eval_prefix case impl in { model; fails }
   | "grammar" -> let (model, fails) = Parse_o.eval_grammar case impl in { model; fails }
-  | "readloop" ->
-    let (m, fails) = Parse_o.eval_readloop case impl in
-    (* the implementation line is reduced to the same observable before comparison *)
-    let ts = split_on '#' impl in
-    let first = match ts with t :: _ -> t | [] -> "" in
-    let starts p s = String.length s >= String.length p && String.sub s 0 (String.length p) = p in
-    let icls = if starts "CLOSED" first then "incomplete" else if starts "400," first then "rejected"
-      else if starts "TIMEOUT" first then "timeout" else "answered" in
-    let same = if List.for_all (fun t -> t = first) ts then "same" else "differs" in
-    ignore m;
-    { model = (if icls ^ " " ^ same = m then impl else m); fails }
+  | "readloop" -> let (model, fails) = Conn_o.eval_readloop case impl in { model; fails }
   | "conn05" -> let (model, fails) = Conn_o.eval ["C05"] case impl in { model; fails }
   | "conn07" -> let (model, fails) = Conn_o.eval ["C07"] case impl in { model; fails }
   | "conn09" -> let (model, fails) = Conn_o.eval ["C09"] case impl in { model; fails }
@@ -121,6 +111,7 @@ let eval_stream (stream : string) (case : string) (impl : string) : verdict =
   | "pool" -> let (model, fails) = Pool_o.eval case impl in { model; fails }
   | "modes" -> let (model, fails) = Modes_o.eval case impl in { model; fails }
   | "epoll" -> let (model, fails) = Epoll_o.eval case impl in { model; fails }
+  | "memory" -> let (model, fails) = Memory_o.eval case impl in { model; fails }
   | "clientread" -> let (model, fails) = Parse_o.eval_clientread case impl in { model; fails }
   | "body" -> let (model, fails) = Body_o.eval case impl in { model; fails }
   | s -> failwith ("unknown stream " ^ s)
